@@ -1214,7 +1214,11 @@ def _red(fname, f, init, post=None):
         if is_sym(a):
             if isinstance(a, SYM):
                 return a
-            return reduce_arr(f, to_sarr(a), axis, init, keepdims)
+            r = reduce_arr(f, to_sarr(a), axis, init, keepdims)
+            if type(r) in (int, float):
+                # the identity of an empty reduction: a numpy scalar (it has a dtype), typed like the array's logical dtype
+                r = rnp.int64(r) if getattr(a, 'ldtype', None) == 'int' else rnp.float64(r)
+            return r
         return real(a, axis=axis, **({'keepdims': keepdims} if keepdims else {}), **k)
     g.__name__ = fname
     return g
